@@ -123,10 +123,13 @@ impl SearchRange {
         let search_range = (2.0_f64.powi(entry_selector as i32) * item_size as f64) as usize;
         // The result doesn't really make sense with 0 tables but ... let's at least not fail
         let range_shift = (n_items * item_size).saturating_sub(search_range);
+        // with very many items the values do not fit their 16-bit fields; readers
+        // ignore them, so saturate instead of failing
+        let saturate = |v: usize| v.min(u16::MAX as usize) as u16;
         SearchRange {
-            search_range: search_range.try_into().unwrap(),
-            entry_selector: entry_selector.try_into().unwrap(),
-            range_shift: range_shift.try_into().unwrap(),
+            search_range: saturate(search_range),
+            entry_selector: saturate(entry_selector),
+            range_shift: saturate(range_shift),
         }
     }
 }
